@@ -59,6 +59,10 @@ static void* worker(void* arg) {
         if (r == POLYSEED_OK) { polyseed_store(d, st1); if (memcmp(st0, st1, sizeof st0)) __sync_fetch_and_add(&g_bad, 1); polyseed_free(d); }
         else if (r != POLYSEED_ERR_MULT_LANG) __sync_fetch_and_add(&g_bad, 1);
         d = NULL;
+        r = polyseed_decode(phrase, coin, NULL, &d);       /* language output is optional */
+        if (r == POLYSEED_OK) polyseed_free(d); else if (r != POLYSEED_ERR_MULT_LANG) __sync_fetch_and_add(&g_bad, 1);
+        (void)polyseed_get_lang_name(lang); (void)polyseed_get_lang_name_en(lang);
+        d = NULL;
         if (polyseed_decode_explicit(phrase, coin, lang, &d) != POLYSEED_OK) __sync_fetch_and_add(&g_bad, 1);
         else { polyseed_store(d, st1); if (memcmp(st0, st1, sizeof st0)) __sync_fetch_and_add(&g_bad, 1); polyseed_free(d); }
         d = NULL;
